@@ -73,6 +73,7 @@ func newTreePipeline(cfg *config) tree {
 }
 
 func (t *treePipeline) output(w io.Writer, r io.Reader, cfg *config) error {
+	w = checkedWriter{w}
 	ctx, cancel := context.WithCancel(cfg.ctx)
 	defer cancel()
 
@@ -84,6 +85,7 @@ func (t *treePipeline) output(w io.Writer, r io.Reader, cfg *config) error {
 }
 
 func (t *treePipeline) outputProgrammably(w io.Writer, root *Node, cfg *config) error {
+	w = checkedWriter{w}
 	ctx, cancel := context.WithCancel(cfg.ctx)
 	defer cancel()
 
